@@ -68,7 +68,8 @@ def public_rel(a0: bool, a1: bool, b0: bool, b1: bool, wl: bool, wr: bool) -> bo
     pre: True
     post: _
     """
-    tick()
+    if tick():
+        return True
     k = int(PART) if PART else 2
     name, cls, rel, kind = RELS[k]
     ia, ib = bits(a0, a1), bits(b0, b1)
@@ -118,7 +119,8 @@ def public_unary(k0: bool, k1: bool, v0: bool, v1: bool, v2: bool, wrapped: bool
     pre: True
     post: _
     """
-    tick()
+    if tick():
+        return True
     name, cls, rel = ONE_SIDED[bits(k0, k1)]
     iv = bits(v0, v1, v2)
     if iv >= len(ONE_VALUES):
@@ -159,7 +161,8 @@ def public_error(c0: bool, c1: bool, c2: bool, c3: bool, sandbox_err: bool) -> b
     pre: True
     post: _
     """
-    tick()
+    if tick():
+        return True
     k = bits(c0, c1, c2, c3)
     if k >= len(ERR_CLASSES):
         return True
@@ -198,7 +201,8 @@ def public_unevaluable(c0: bool, c1: bool, c2: bool) -> bool:
     pre: True
     post: _
     """
-    tick()
+    if tick():
+        return True
     k = bits(c0, c1, c2)
     name, make = UNEVAL[k]
     if excluded("C07.public_unevaluable", name=name, k=k):
@@ -219,7 +223,8 @@ def public_kwargs(k0: bool, k1: bool, k2: bool, a0: bool, a1: bool, b0: bool, b1
     pre: True
     post: _
     """
-    tick()
+    if tick():
+        return True
     k, ia, ib = bits(k0, k1, k2), bits(a0, a1), bits(b0, b1)
     if k >= len(KW) or ia >= 3 or ib >= 3:
         return True
@@ -239,7 +244,8 @@ def unit_tests(p0: bool, p1: bool, p2: bool, n0: bool, n1: bool) -> bool:
     pre: True
     post: _
     """
-    tick()
+    if tick():
+        return True
     n = 1 + bits(n0, n1)
     if n > 3:
         return True
@@ -268,7 +274,8 @@ def public_reach(a0: bool, a1: bool, wl: bool) -> bool:
     pre: True
     post: _
     """
-    tick()
+    if tick():
+        return True
     ia = bits(a0, a1)
     if ia >= 3:
         return True
@@ -308,7 +315,8 @@ def type_menu(v0: bool, v1: bool, v2: bool, v3: bool, s0: bool, s1: bool, s2: bo
     pre: True
     post: _
     """
-    tick()
+    if tick():
+        return True
     vi, si = bits(v0, v1, v2, v3), bits(s0, s1, s2, s3)
     if vi >= len(TYPE_VALUES) or si >= len(TYPE_SPECS):
         return True
